@@ -171,6 +171,9 @@ func (b *OutboundBreaker) Do(f func() error) (bool, error) {
 	// log.Printf("OutboundBreaker total %d %v", total, closed)
 	if closed {
 		b.counts[0]++
+		// Re-align the window on the admission, so that this
+		// hit is retained for the whole interval.
+		b.updated = now
 	}
 	b.Unlock()
 	var err error
@@ -254,14 +257,21 @@ func (b *OutboundBreaker) slide(now time.Time) {
 	ns := now.Sub(b.updated).Nanoseconds()
 	resolution := b.interval.Nanoseconds() / int64(b.ticks)
 	ticks := int(ns / int64(resolution))
-	if len(b.counts) < ticks {
+	if len(b.counts) <= ticks {
+		// Everything has aged out: start a fresh window.
 		ticks = len(b.counts)
+		b.updated = now
+	} else {
+		// Advance by whole ticks only.  (Setting 'updated' to
+		// 'now' would drop the fraction of a tick on every
+		// call, so a caller polling faster than the resolution
+		// would keep the window from ever sliding.)
+		b.updated = b.updated.Add(time.Duration(int64(ticks) * resolution))
 	}
 	copy(b.counts[ticks:], b.counts)
 	for i := 0; i < ticks; i++ {
 		b.counts[i] = 0
 	}
-	b.updated = now
 }
 
 // ComboBreaker is a bunch of Breakers considered as one.
